@@ -10,19 +10,25 @@ from .info_dir_searcher import InfoDirSearcher
 from .info_files import InfoFiles
 from .real_restore_logger import RealRestoreLogger
 from .restore_cmd import RestoreCmd
-from .trash_directories import TrashDirectoriesImpl
+from .trash_directories import TrashDirectoriesImpl, SecureTrashDirectories
 from .trashed_files import TrashedFiles
 from ..fstab.volumes import RealVolumes
 from ..lib.logger import my_logger
 from ..lib.my_input import RealInput
+from ..trash_dirs_scanner import TopTrashDirRules
+from ..empty.top_trash_dir_rules_file_system_reader import \
+    RealTopTrashDirRulesReader
 
 
 def main():
     info_files = InfoFiles(RealListingFileSystem())
     volumes = RealVolumes()
-    trash_directories = TrashDirectoriesImpl(volumes,
-                                             os.getuid(),
-                                             os.environ)
+    trash_directories = SecureTrashDirectories(
+        TrashDirectoriesImpl(volumes,
+                             os.getuid(),
+                             os.environ),
+        os.getuid(),
+        TopTrashDirRules(RealTopTrashDirRulesReader()))
     searcher = InfoDirSearcher(trash_directories, info_files)
     trashed_files = TrashedFiles(RealRestoreLogger(my_logger),
                                  RealFileReader(),
